@@ -23,6 +23,6 @@ for f in sorted(glob.glob(os.path.join(HERE, "seeded", "*", "meta.json"))):
     sigs = "; ".join(s.replace("|", "/") for s in d["checks"][d["property"]]["signatures"][:2])
     out.append(f"| {d['name']} | {d['property']} | {need} | {', '.join(d['caught_by']) or '**MISSED**'} | {sigs} | {NOTES.get(d['name'], '')} |")
 missed = [1 for f in glob.glob(os.path.join(HERE, "seeded", "*", "meta.json")) if not json.load(open(f))["caught_by"]]
-out += ["", f"Total: {len(out) - 12} changes, {len(missed)} currently missed by the quick tier."]
+out += ["", f"Total: {len(glob.glob(os.path.join(HERE, "seeded", "*", "meta.json")))} changes, {len(missed)} currently missed by the quick tier."]
 open(os.path.join(HERE, "SENSITIVITY.md"), "w").write("\n".join(out) + "\n")
 print("\n".join(out[-3:]))
